@@ -16,5 +16,14 @@ def repl(m):
         return '%sFacts.%s = %s := by decide' % (m.group(1), name, vals[name])
     return m.group(0)
 src2 = re.sub(r'(theorem \S+ : )Facts\.(\S+) = (\[.*?\]) := by decide', repl, src, flags=re.S)
+# source-text pins of small decision functions: (re)generate the whole block
+block = ['', '/-! source text of small decision functions (go/printer, white space collapsed): the Lean counterparts were',
+         '    written from exactly this text; any rewrite — also a harmless one — has to be reviewed and re-pinned -/']
+for name in sorted(vals):
+    if name.startswith('src_'):
+        block.append('theorem %s : Facts.%s = %s := rfl' % (name, name, vals[name]))
+blk = '\n'.join(block) + '\n'
+src2 = re.sub(r'\n/-! source text of small decision functions.*?(?=\nend )', '', src2, flags=re.S)
+src2 = re.sub(r'\nend (\S+)\s*$', lambda m: blk + '\nend ' + m.group(1) + '\n', src2)
 open(p, 'w').write(src2)
 print('changed' if src2 != src else 'unchanged')
